@@ -202,7 +202,9 @@ CLAIMED.update({
              'public numpy name and the builtins (the translator refuses a source whose readers call eval/exec or bypass the '
              'lookup); theorems: any string is either one of the table entries or a ValueError, side-effect expressions are '
              'rejected, loading only reads files present under the directory, names taken from file content are single path '
-             'components, every move of the upgrade plan stays in its feature folder. Tied by running the real loader / '
+             'components, every move of the upgrade plan stays in its feature folder, and on the typed models of the table readers a '
+             'timestamp, pose field or declared record field that is not a number is an error (bad_*_is_an_error; checking this '
+             'clause on the real loader found D30 and D31, repaired by fix: commits). Tied by running the real loader / '
              'upgrader under sys.addaudithook on directories with one crafted field (canary payloads): opened files and '
              'write/remove/move effects compared with the model.',
         note=COMMON_NOTE + 'PARTIAL: that the interpreter evaluates nothing else is observed through audit events (compile, exec, '
@@ -215,7 +217,8 @@ CLAIMED.update({
     'C18': dict(
         text='Lean 4 model of untar_file over a file-system tree with symbolic links: the ".." guard, member-name resolution the '
              'way tarfile.data_filter does it (lexical realpath following links), the kernel\'s own path walk, os.makedirs on '
-             'the literal parent path, and every member kind; at EVERY site where an entry is created or replaced the model '
+             'the literal parent path, every member kind, and the copy fallbacks of links (a link that cannot be made extracts '
+             'the member its target names, searched by normalised name, recursively); at EVERY site where an entry is created or replaced the model '
              'computes the physical path the kernel would use, and a path not strictly below the install directory is the '
              'verdict `escaped`. Theorems for all archives and all trees (any members, names, link targets, links planted by '
              'earlier members or standing there before): untar_never_escapes / member_never_escapes (`escaped` is unreachable), '
@@ -226,8 +229,9 @@ CLAIMED.update({
              'sandbox and comparing the resulting tree and error family with the model; the oracle checks that nothing '
              'outside the destination changed.',
         note=COMMON_NOTE + 'PARTIAL: the kernel path walk, os.makedirs and the tarfile library are modelled, not verified '
-             '(the correspondence is the tie); archives whose hard-link members fall back to copying are reported by the model '
-             'as unmodelled and checked by the oracle only; benign archives holding directory members or repeated names, and file '
+             '(the correspondence is the tie; the translator refuses another tarfile than the CPython 3.12.1 one the model transcribes); '
+             'the copy fallbacks of TarFile.makelink are inside the model (untar_never_unmodelled); an archive that plants a CYCLE of '
+             'symbolic links is followed by the model only up to the member that meets it (oracle only beyond); benign archives holding directory members or repeated names, and file '
              'permissions, are checked by the oracle only.',
         technique='Lean 4 proof (invariant over the makedirs walk, kernel-walk vs realpath refinement) on a file-system model of extraction + sandboxed differential extraction',
         design_ref='DESIGN.md §6 C18'),
